@@ -12,6 +12,40 @@ open MdsVerif.Proofs.Mdiff
 
 variable {α : Type} [DecidableEq α]
 
+/-! ## New -/
+
+/-- **The chunks of `New`**, for every *valid* edit script `es` of `L`, `R` (validity only, no
+canonicity, is used): every chunk consumes exactly `L[LStart, LEnd)` and produces exactly
+`R[RStart, REnd)`; the chunks are in order, disjoint on both sides and separated by at least one
+left line; replacing each chunk's left range by its output turns `L` into `R`; no chunk contains an
+Emit; every chunk has a non-empty range on at least one side and hence at least one edit. -/
+theorem newChunks_ok (es : List (Edit α)) (L R : List α) (h : EditScript.Valid es L R) :
+    AllOK (newChunks es) L R ∧ Ascending (newChunks es) ∧ NonAdjacent (newChunks es) ∧
+    patch L (newChunks es) = R ∧
+    (∀ c ∈ newChunks es, ∀ e ∈ c.edits, e.op ≠ .emit) ∧
+    (∀ c ∈ newChunks es, (c.lstart < c.lend ∨ c.rstart < c.rend) ∧ c.edits ≠ []) := by
+  have r := newChunks_res es h
+  exact ⟨r.ok, r.asc, r.na, patch_of_aligned r.ok r.al, r.noemit,
+    fun c hc => ⟨r.nonempty c hc, edits_ne_nil_of_range (r.ok c hc) (r.nonempty c hc)⟩⟩
+
+/-- **`New(L, R)`** stores its inputs and the edit script, and its chunks are correct (as in
+`newChunks_ok`).  `hvalid` is `Props.C11.editScript_valid`. -/
+theorem new_ok (L R : List α) (hvalid : EditScript.Valid (editScript L R) L R) :
+    let d := new L R
+    d.left = L ∧ d.right = R ∧ d.edits = editScript L R ∧ AllOK d.chunks L R ∧
+    Ascending d.chunks ∧ NonAdjacent d.chunks ∧ patch L d.chunks = R := by
+  have r := newChunks_ok (editScript L R) L R hvalid
+  exact ⟨rfl, rfl, rfl, r.1, r.2.1, r.2.2.1, r.2.2.2.1⟩
+
+/-- non-vacuity: two chunks (the F4 input) -/
+example : (new ([3, 2] : List Nat) [3, 3, 2, 2]).chunks =
+    [⟨[⟨.copy, [], [3]⟩], 2, 2, 2, 3⟩, ⟨[⟨.copy, [], [2]⟩], 3, 3, 4, 5⟩] ∧
+    EditScript.validB (editScript ([3, 2] : List Nat) [3, 3, 2, 2]) [3, 2] [3, 3, 2, 2] = true := by
+  decide
+/-- non-vacuity: two Replace chunks separated by five lines -/
+example : (new ([1, 2, 3, 4, 5, 6, 7, 8, 9] : List Nat) [1, 0, 3, 4, 5, 6, 7, 0, 9]).chunks =
+    [⟨[⟨.replace, [2], [0]⟩], 2, 3, 2, 3⟩, ⟨[⟨.replace, [8], [0]⟩], 8, 9, 8, 9⟩] := by decide
+
 /-! ## Regression: finding F4 (AddContext before commit 67e3ccb) and the generated fact -/
 
 set_option maxRecDepth 4000 in
